@@ -52,6 +52,42 @@ def _frame_list(st, name, first_fid, n):
     return LstObj(seq)
 
 
+class SysObj:
+    """The System object the driver reuses for every frame (python-level record; copied with the state)."""
+
+    def __init__(self, vel_rev, fields=None):
+        self.vel_rev = vel_rev
+        self.fields = dict(fields or {})
+
+    def __pyvc_copy__(self, memo):
+        n = SysObj(self.vel_rev, self.fields)
+        memo[id(self)] = n
+        return n
+
+    def truth(self, st):
+        return True
+
+    def pyvc_getattr(self, attr, st, ex):
+        if attr == "vel_rev":
+            return self.vel_rev
+        if attr in ("pos", "vel", "box", "config"):
+            return self.fields.get(attr)
+        return BoundMethod(self, attr)
+
+    def pyvc_setattr(self, attr, v, st, ex):
+        if attr == "vel_rev":
+            self.vel_rev = v
+        else:
+            self.fields[attr] = v
+
+    def pyvc_method(self, name, args, kwargs, st, ex, node):
+        if name == "set_pos":
+            self.fields["config"] = tuple(args[0])
+            yield st, None
+            return
+        raise Unsupported(f"system.{name}")
+
+
 class LmpSelf:
     def __init__(self):
         self.calls = []
@@ -71,6 +107,13 @@ class LmpSelf:
             step = step if z3.is_expr(step) else z3.IntVal(step)
             for nm, v in (("positions", xyz), ("velocities", vel), ("box", box)):
                 ex.oblige(st, f"frame_k_uses_its_own_{nm}@{node.lineno}", _fid(v) == step, info={"callee": "calculate_order"})
+            system = args[0]
+            if isinstance(system, SysObj) and isinstance(vel, Frame):
+                # EngineBase.calculate_order multiplies the given velocities by -1 iff system.vel_rev
+                rv = st.env["reverse"]
+                rv = rv if z3.is_expr(rv) else z3.BoolVal(bool(rv))
+                vr = system.vel_rev if z3.is_expr(system.vel_rev) else z3.BoolVal(bool(system.vel_rev))
+                ex.oblige(st, f"frame_k_order_sees_the_velocity_direction_of_its_vel_rev_flag@{node.lineno}", z3.If(vr, -vel.sign, vel.sign) == z3.If(rv, -1, 1), info={"callee": "calculate_order"})
             yield st, OrderVec(fresh("order", REAL))
             return
         if name == "snapshot_to_system":
@@ -157,9 +200,10 @@ def _lmp_make(ex, st):
         pass
     traj = _frame_list(st, "trajectory", s0, n)
     boxes = _frame_list(st, "box_trajectory", s0, n)
+    rev = fresh("reverse", BOOL)  # system.vel_rev == reverse on entry: postcondition of EngineBase.propagate
     # elements are Frames: wrap on read
-    return {"self": LmpSelf(), "trajectory": FrameSeq(traj, "posvel"), "box_trajectory": FrameSeq(boxes, "box"), "step_nr": s0, "system": Opaque("system"),
-            "msg_file": Opaque("msg_file"), "traj_file": "traj.lammpstrj", "reverse": fresh("reverse", BOOL), "path": Opaque("path"), "left": fresh("left", REAL),
+    return {"self": LmpSelf(), "trajectory": FrameSeq(traj, "posvel"), "box_trajectory": FrameSeq(boxes, "box"), "step_nr": s0, "system": SysObj(rev),
+            "msg_file": Opaque("msg_file"), "traj_file": "traj.lammpstrj", "reverse": rev, "path": Opaque("path"), "left": fresh("left", REAL),
             "right": fresh("right", REAL), "exe": ExeObj(), "iterations_after_stop": 0, "lammps_was_terminated": False, "status": Opaque("s"), "success": False}
 
 
